@@ -155,3 +155,8 @@ def adjoint_identity_subs(o, k):
                 if val[0] == "var" and val[1] == key:
                     return True
     return False
+
+
+def approximate_bound_leak(o, k):
+    """a lazily built Approximate term exposes the alpha-renamed name of its approx_vars"""
+    return str(o.get("label", "")).startswith("binder|approximate|")
